@@ -68,6 +68,13 @@ def case_s(draw) -> dict[str, Any]:
             r["ops"] = runs[0]["ops"]
     target = draw(st.integers(0, n - 1))
     select = draw(st.sampled_from(["name", "props", "name+props"])) if n > 1 else draw(st.sampled_from(["name", "props", "name+props", "none"]))
+    if n > 1 and draw(st.integers(0, 2)) == 0:
+        # the ECU behind the first address is scanned again later (another run against the same URL, after other runs): the history
+        # recorded first is the one a replay from the default state has to reproduce
+        k = draw(st.integers(1, n - 1))
+        runs[k]["url"], runs[k]["name"] = runs[0]["url"], runs[0]["name"]
+        target = 0
+        select = draw(st.sampled_from(["name", "name+props"]))
     return {"runs": runs, "target": target, "select": select, "allow_silence_in_state": False}
 
 
@@ -169,7 +176,8 @@ def record(dbpath: Path, run: dict[str, Any], allow_silence_in_state: bool) -> d
     asyncio.run(go())
     # register the ECU name for this address, as the documentation of `vecu db` prescribes
     con = sqlite3.connect(dbpath)
-    con.execute("INSERT INTO ecu(name) VALUES(?)", (run["name"],))
+    if con.execute("SELECT count(*) FROM ecu WHERE name = ?", (run["name"],)).fetchone()[0] == 0:
+        con.execute("INSERT INTO ecu(name) VALUES(?)", (run["name"],))
     con.execute("UPDATE address SET ecu = (SELECT id FROM ecu WHERE name = ?) WHERE url = ?", (run["name"], run["url"]))
     con.commit()
     con.close()
